@@ -31,6 +31,8 @@ structure TJ where
   lastOps : List String := []      -- raw op strings of the last `ops` line
   explicitModified : Nat := 0
   prevMap : TMap := []             -- object map before the current mutator
+  firstExplicit : Option Bool := none   -- was the first mutator of this object an explicit set of `modified`?
+  cachedDep : String := ""
 
 def parseOpNoTs (toks : List String) : Option Op :=
   match toks with
@@ -100,7 +102,7 @@ def tjLine (j : TJ) (line : String) : TJ × List String :=
         ({ j with lastOps := raw, opsAtObtain := pos, clean := pos == 0 }, [])
       else if line.startsWith "view " then
         let m := (viewMap line).getD []
-        ({ j with baseMap := m, prevMap := m, explicitModified := 0 }, [])
+        ({ j with baseMap := m, prevMap := m, explicitModified := 0, firstExplicit := none }, [])
       else (j, [])
     | "L" :: _ :: u :: _ =>
       if line == "obj none" then ({ j with objU := none }, [])
@@ -109,7 +111,7 @@ def tjLine (j : TJ) (line : String) : TJ × List String :=
         ({ j with lastOps := raw, opsAtObtain := raw.length, clean := raw.isEmpty }, [])
       else if line.startsWith "view " then
         let m := (viewMap line).getD []
-        ({ j with objU := u.toNat?, baseMap := m, prevMap := m, explicitModified := 0 }, [])
+        ({ j with objU := u.toNat?, baseMap := m, prevMap := m, explicitModified := 0, firstExplicit := none }, [])
       else (j, [])
     | "I" :: _ :: u :: _ =>
       let u := u.toNat?.getD 0
@@ -123,7 +125,7 @@ def tjLine (j : TJ) (line : String) : TJ × List String :=
         ({ j with lastOps := raw, opsAtObtain := raw.length, clean := raw.isEmpty }, [])
       else if line.startsWith "view " then
         let m := (viewMap line).getD []
-        ({ j with objU := some u, baseMap := m, prevMap := m, explicitModified := 0 }, [])
+        ({ j with objU := some u, baseMap := m, prevMap := m, explicitModified := 0, firstExplicit := none }, [])
       else (j, [])
     | "M" :: _ :: name :: args =>
       if line == "ok" || line == "usage-error" || line == "bad-arg" || line == "needs-task" || line == "no-object" then
@@ -160,9 +162,21 @@ def tjLine (j : TJ) (line : String) : TJ × List String :=
             | none => []
           let expl := j.explicitModified + (if name == "set_modified" || ((name == "set_value" || name == "td_update") && args.head? == some (encStr "modified")) then 1 else 0)
           let nMod := (ops.filter fun o => match o with | .update w k _ _ _ => w == u && k == "modified" | _ => false).length
-          let modOnce := if line.startsWith "view " && nMod > expl + 1 then [s!"modified-once {nMod} updates of modified, {expl} explicit"] else []
-          ({ j with fails := j.fails ++ errs ++ cons ++ reserved ++ endRule ++ modOnce, prevMap := m, explicitModified := expl }, [])
+          let isExpl := name == "set_modified" || ((name == "set_value" || name == "td_update") && args.head? == some (encStr "modified"))
+          let firstExpl := match j.firstExplicit with | some b => b | none => isExpl
+          -- one automatic stamp per object lifetime, none once `modified` was set explicitly first
+          let autoAllowed := if firstExpl then 0 else 1
+          let modOnce := if line.startsWith "view " && j.result == "ok" && nMod > expl + autoAllowed then
+              [s!"modified-once {nMod} updates of modified, {expl} explicit, first mutator explicit={firstExpl}"] else []
+          ({ j with fails := j.fails ++ errs ++ cons ++ reserved ++ endRule ++ modOnce, prevMap := m, explicitModified := expl,
+                    firstExplicit := if j.result == "ok" then some firstExpl else j.firstExplicit }, [])
         | _, _ => (j, [])
+      else (j, [])
+    | "A" :: _ =>
+      if line.startsWith "depmap-cached " then ({ j with cachedDep := (line.drop 14).toString }, [])
+      else if line.startsWith "depmap " then
+        let fresh := (line.drop 7).toString
+        ({ j with fails := j.fails ++ (if fresh == j.cachedDep then [] else [s!"depmap cached-differs-from-fresh cached={j.cachedDep} fresh={fresh}"]) }, [])
       else (j, [])
     | ["P"] =>
       if line.startsWith "stored " then
